@@ -25,6 +25,12 @@
 (* marker) to the token-level parse entry points, its tree to the scanner, *)
 (* the serialisers, the extractors and the walker.  These read; Shape =    *)
 (* "writes-through" is a library that completes a token window in place.   *)
+(* Whether a returned slice shares storage with something the library      *)
+(* keeps can depend on how its length relates to buffer capacities; the    *)
+(* driver therefore instantiates the two-step history "tokenize x and hold *)
+(* the tokens; tokenize y on the same instance" with an x of EVERY token   *)
+(* count up to a bound (the size sweep), which no enumeration of statement *)
+(* kinds can cover.                                                        *)
 (* Shape = "pinned": Put leaves the listed fields untouched (the pinned    *)
 (* commit), Shape = "ideal": Put clears every field.                       *)
 (***************************************************************************)
